@@ -6,6 +6,7 @@ package main
 
 import (
 	"bufio"
+	"bytes"
 	"crypto/sha256"
 	"fmt"
 	"os"
@@ -14,6 +15,7 @@ import (
 	"strings"
 	"sync"
 
+	"github.com/gabriel-vasile/mimetype"
 	mjson "github.com/gabriel-vasile/mimetype/internal/json"
 )
 
@@ -48,7 +50,18 @@ func runC04(c *runCtx) {
 		{[]byte("\"q\"\"x\",\"y\"\n\"1\",\"2\"\n"), 3072}, {[]byte("{\"a\":1}\n{\"b\":2}\n"), 3072}, {[]byte("{\"a\":1}\n{\n"), 3072}, {[]byte("{\"a\":1}\n{\"b\":\n"), 3072},
 		{[]byte("<html><meta charset=\"KOI8-R\"></html>"), 3072}, {[]byte("<?xml version=\"1.0\" encoding=\"ISO-8859-2\"?><a/>"), 3072}, {[]byte("plain text"), 3072}, {[]byte("caf\xc3\xa9"), 3072},
 		{[]byte("%PDF-1.4"), 3072}, {[]byte{}, 3072}, {[]byte("["), 0}, {[]byte("{"), 1}, {[]byte(" [ "), 3072},
+		// readers that stop in the middle of their input (a field-count error long before the end, in both the CSV and
+		// the TSV check) and tables whose verdict depends on what the next reader sees
+		{[]byte("a,b\tc\n1\np,q,r,s\nz,z\tz\n"), 3072}, {[]byte("k,v\n1,2\n3,4\n"), 3072}, {[]byte("k\tv\n1\t2\n3\t4\n"), 3072},
+		{[]byte("x,y,z\n1,2\n" + strings.Repeat("7,8,9\n", 700)), 3072}, {[]byte("h1\th2\n1\n" + strings.Repeat("a\tb\n", 900)), 0},
 	}
+	aborters := []int{2, 3, 11, 14} // indices above: parses / reads that end early
+	for i := range inputs {
+		if bytes.HasPrefix(inputs[i].data, []byte("a,b\tc\n1\n")) || bytes.HasPrefix(inputs[i].data, []byte("x,y,z\n1,2\n")) || bytes.HasPrefix(inputs[i].data, []byte("h1\th2\n1\n")) {
+			aborters = append(aborters, i)
+		}
+	}
+	nFixed := len(inputs)
 	for i := 0; i < 12; i++ {
 		d := []byte((&jgen{c}).doc())
 		inputs = append(inputs, c04in{d, 3072}, c04in{d, uint32(1 + r.Intn(len(d)))})
@@ -97,6 +110,14 @@ func runC04(c *runCtx) {
 	rounds := 40
 	if c.tier == "thorough" {
 		rounds = 1500
+	}
+	// every early-ending detection followed by every other input, and sandwiched: t, a, t
+	for _, a := range aborters {
+		for t := 0; t < nFixed; t++ {
+			check(t, fmt.Sprintf("before input #%d", a))
+			check(a, "the early-ending input itself")
+			check(t, fmt.Sprintf("right after the early-ending input #%d", a))
+		}
 	}
 	// single-goroutine histories (the pool hands back the state the previous detection used)
 	for h := 0; h < rounds; h++ {
@@ -161,8 +182,77 @@ func runC04(c *runCtx) {
 			c.propfail("C04", fmt.Sprintf("bytes beyond the limit change the result: %q vs %q; limit=%d input=%s", ref[i], got, in.limit, hx(in.data[:min(len(in.data), 80)])))
 		}
 	}
+	pastLimit(c)
 	c.emit("c04done", strconv.Itoa(int(c.stats.Evaluations)))
 	_ = bufio.ScanLines
+}
+
+// bytes past the limit never matter: for header-mode documents and limits placed at every newline, quote, bracket and
+// separator (and next to them), the result for the exact-capacity header must equal the result when arbitrary bytes
+// follow in the caller's slice - the original tail, its inversion, NULs, newlines, quotes, closing brackets, a zip
+// header.  (A detector that peeks into the spare capacity, or a reader that over-reads, shows up here.)
+func pastLimit(c *runCtx) {
+	docs := [][]byte{
+		[]byte("a,b\n1,2\n3,4\n5,6\n7,8,9,10\n11,12\n"), []byte("a\tb\r\n1\t2\r\n3\t4\r\n5\t6\t7\r\n"),
+		[]byte("{\"a\":1}\n{\"b\":[2]}\n{\"c\":3}\n{\"d\":\n"), []byte("[1,2,3]\n[4]\n\n[5,6\n"),
+		[]byte(`{"type":"Feature","geometry":{"type":"Point","coordinates":[1,2]},"properties":{"a":"b\\"c"}}`),
+		[]byte(`{"log":{"version":"1.2","creator":{"name":"x"},"entries":[{"t":1},{"t":2}]}}`),
+		[]byte("<html><head><meta charset=\"koi8-r\"><title>t</title></head><body>x</body></html>"),
+		[]byte("<?xml version=\"1.0\" encoding=\"iso-8859-2\"?>\n<rss><channel/></rss>\n"),
+		[]byte("plain text with caf\xc3\xa9 and more caf\xc3\xa9 text\nsecond line\n"),
+		[]byte("#!/usr/bin/env python\nprint('x')\n"), []byte("%PDF-1.4\n%\xe2\xe3\xcf\xd3\n1 0 obj\n"),
+	}
+	for i := 0; i < 4; i++ {
+		docs = append(docs, []byte((&jgen{c}).doc()))
+	}
+	tails := func(orig []byte) [][]byte {
+		inv := append([]byte{}, orig...)
+		for k := range inv {
+			inv[k] ^= 0xFF
+		}
+		rep := func(b byte) []byte { return []byte(strings.Repeat(string([]byte{b}), len(orig)+8)) }
+		return [][]byte{orig, inv, rep(0), rep('\n'), rep('"'), rep(']'), rep('}'), rep(','), rep(' '), append([]byte("PK\x03\x04"), rep('A')...), []byte("\r\n\r\n"), {0x80}, {'\n'}}
+	}
+	for _, d := range docs {
+		lims := map[int]bool{}
+		for k, b := range d {
+			if b == '\n' || b == '\r' || b == '"' || b == ',' || b == ']' || b == '}' || b == '[' || b == '{' || b == ':' || b == '>' || b >= 0x80 {
+				for _, dk := range []int{-1, 0, 1} {
+					if k+dk > 0 && k+dk < len(d) {
+						lims[k+dk] = true
+					}
+				}
+			}
+		}
+		for L := range lims {
+			exact := make([]byte, L)
+			copy(exact, d[:L])
+			m0, _ := detectAt(exact, uint32(L))
+			want := "NIL"
+			if m0 != nil {
+				want = chainFull(m0)
+			}
+			for ti, t := range tails(d[L:]) {
+				y := append(append(make([]byte, 0, L+len(t)+32), d[:L]...), t...)
+				m, _ := detectAt(y, uint32(L))
+				got := "NIL"
+				if m != nil {
+					got = chainFull(m)
+				}
+				c.stats.note("past-limit", append([]byte{byte(ti)}, y...), len(y), true)
+				if got != want {
+					c.propfail("C04", fmt.Sprintf("bytes beyond the limit change the result: header alone %q, followed by tail #%d (%s...) %q; limit=%d header=%s", want, ti, hx(t[:min(len(t), 8)]), got, L, hx(d[:L])))
+				}
+				// the same header through a reader: what follows must not be consumed into the decision either
+				mimetype.SetLimit(uint32(L))
+				mr, err := mimetype.DetectReader(bytes.NewReader(y))
+				if err == nil && mr != nil && chainFull(mr) != want {
+					c.propfail("C04", fmt.Sprintf("bytes beyond the limit change the result of DetectReader: header alone %q, with tail #%d %q; limit=%d header=%s", want, ti, chainFull(mr), L, hx(d[:L])))
+				}
+			}
+		}
+	}
+	mimetype.SetLimit(3072)
 }
 
 func init() {
